@@ -277,3 +277,24 @@ check(
     level_note="trusted: long double reference recursions written from the textbook (and the header comments); coeffs() as the observation point",
     assumptions=["convergence horizons are the harness's bounded-progress restatement: 60L/(mu(2-mu)) samples for NLMS, 40L+200 (6000 for lambda=1) for RLS"],
 )
+
+check(
+    "C13",
+    runs=[dict(harness="C13_spectrum", flavour="plain")],
+    rule=("welch for nfft in {8,...,4096}, window lengths <= nfft from 8 window families, overlaps {0, wl/2, wl-1, random}, density and "
+          "power scaling, real and complex coloured random signals: lengths nfft/2+1 | nfft, non-negative, frequency axis strictly "
+          "increasing with spacing 1/nfft, and every value must equal the long-double reference Welch estimate AT THE FREQUENCY THE AXIS "
+          "LISTS FOR IT (1e-10 of the maximum); density sum == nfft*mean_seg(sum|x w|^2)/sum(w^2) (1e-10 rel.); bin-centred tone: peak == "
+          "A^2 (complex) / A^2/2 (real, within the window's own mirror leakage 4|W(2w0)|/|W(0)| + 1e-9); tones on a grid 8x finer than the "
+          "bin spacing: f[argmax] must be the listed frequency nearest the tone; mscohere in [0,1], == 1 for scaled copies, and equal to a "
+          "long-double reference coherence for filtered copies and independent noise; short overloads == explicit calls. "
+          "distinct = (configuration, signal bits)."),
+    min_distinct={"quick": 5000, "thorough": 20000},
+    min_obs={"quick": {"label_checks_complex": 600, "label_checks_real": 300, "density_sum_checks": 300, "mscohere_checks": 200},
+             "thorough": {"label_checks_complex": 2400, "label_checks_real": 1200, "density_sum_checks": 1200, "mscohere_checks": 800}},
+    technique="runtime monitor: complete long-double reference Welch/coherence estimator, label-aware comparison, independent conservation identity and tone-labelling oracle",
+    level_text=("Spectral estimators are executed over the parameter grid and compared value by value with a reference written from the "
+                "definition; labelling is judged on tones finer than the bin spacing; held on the evaluations counted in the evidence."),
+    level_note="trusted: long double radix-2 FFT in the reference (nfft is a power of two here); windows come from dsplib::window (judged by C11)",
+    assumptions=["tones for the real-input labelling check stay 3 bins away from 0 and 0.5; exact half-bin ties are not judged"],
+)
